@@ -172,6 +172,11 @@ func rewriteFile(path string) (bool, []byte, []string, error) {
 							needVsync, changed = true, true
 							notes = append(notes, "context.WithTimeout -> vsync.WithTimeout")
 						}
+						if id.Name == "time" && sel.Sel.Name == "Sleep" && strings.Contains(path, "/internal/jobs/") {
+							id.Name = "vsync"
+							needVsync, changed = true, true
+							notes = append(notes, "time.Sleep -> vsync.Sleep")
+						}
 						if id.Name == "time" && sel.Sel.Name == "AfterFunc" {
 							id.Name = "vsync"
 							needVsync, changed = true, true
